@@ -754,6 +754,8 @@ func (tw *TumblingWindow) sendResult(data []types.Row) {
 		// Try to drop oldest data
 		select {
 		case <-tw.outputChan:
+			// the displaced result is lost: it counts as dropped
+			atomic.AddInt64(&tw.droppedCount, 1)
 			select {
 			case tw.outputChan <- data:
 				atomic.AddInt64(&tw.sentCount, 1)
